@@ -6,6 +6,7 @@ import _call_common as C
 import C03 as _C03
 import C10 as _C10
 import _callable_common as KC
+import _intro_common as T
 
 RULE = ('type-directed: annotation terms over the vocabulary (classes, Any, None, Union/Optional/X|Y, Literal, NewType, Type[..], forward '
         'references, list/set/frozenset/deque/abstract-collection/dict/defaultdict/mapping/tuple generics in typing and PEP 585 spelling, '
@@ -26,6 +27,7 @@ def cases(rng, tier):
     out += C.build_cases(rng, m, calls_per=3, style='kw', tag='c01c') + C.scenario_cases(rng, m // 2, style='kw', tag='c01s')
     out += _C10.build_cases(rng, m // 3, 'c01d')
     out += KC.gen_cases(rng, tier, alts=False)      # simple Callable signatures (separate model PedVerif.Callable)
+    out += T.extra_cases(rng, tier)                 # exits of the translated checker that the type-directed generator meets rarely (ir tie)
     if tier == 'thorough':
         vals = K.small_values()
         for at in K.small_terms():
@@ -41,7 +43,7 @@ def search(rng, tier, near):
 
 def run_impl(cases):
     """three kinds of cases, each executed by the runner of its own layer (results back in the original order)"""
-    runners = {'checker': K.run_impl_checker, 'calllayer': C.run_impl_calls, 'typesafe': _C10.run_impl, 'callable': KC.run_impl}
+    runners = {'checker': T.run_impl_checker, 'calllayer': C.run_impl_calls, 'typesafe': _C10.run_impl, 'callable': KC.run_impl}
     out = [None] * len(cases)
     for kind, run in runners.items():
         idx = [i for i, c in enumerate(cases) if c['m'] == kind]
@@ -74,12 +76,26 @@ def judge(case, impl, model):
     pfail = None
     finding = None
     regions = model['regions']
-    if ic == 'accept' and not model['spec'] and 'iterator' not in regions and 'fwdUnresolved' not in regions:
+    if ic == 'accept' and not model['spec'] and 'fwdUnresolved' not in regions:
         pfail = 'accepted although the value does not conform to the annotation (spec `conforms` = false)'
+        if 'iterator' in regions and 'namedtuple' not in regions:
+            pfail = 'accepted although the pending items of a one-shot iterator do not conform to the element type (spec `conforms` = false)'
         if corr:
             if 'namedtuple' in regions: finding = 'namedtupleStructural'
+            elif 'iterator' in regions: finding = 'iteratorItemsUnchecked'       # not looked at by design: it would consume the iterator (C04)
     ann, val = case['c']['ann'], case['c']['val']
     nontrivial = ann[0] not in ('cls', 'any', 'none') or val[0] not in ('lit', 'inst')
-    return {'corr': corr, 'pfail': pfail, 'finding': finding, 'nontrivial': nontrivial,
-            'tag': f"{ann[0]}/{io.split(':')[0]}/spec={int(model['spec'])}",
-            'why': '' if corr else f'implementation {io} vs model {model["out"]}'}
+    j = {'corr': corr, 'pfail': pfail, 'finding': finding, 'nontrivial': nontrivial, '_under': bool(model.get('underC01')),
+         'tag': f"{ann[0]}/{io.split(':')[0]}/spec={int(model['spec'])}",
+         'why': '' if corr else f'implementation {io} vs model {model["out"]}'}
+    return T.apply(j, case, impl, model)      # + introspection record, `if` tests and statement trace of the interpreted translation
+
+
+def extra_coverage(results):
+    cov = T.coverage(results)
+    chk = [j for (c, i, m, j) in results if c.get('m') == 'checker' and '_under' in j]
+    # how many generated checker cases meet every hypothesis of `sound_partial` as the driver evaluates them (local string-annotation
+    # guard, no unsupported node, well-formed value, no NamedTuple instance / one-shot iterator): the theorem speaks about these
+    cov['cases_under_sound_partial'] = sum(1 for j in chk if j['_under'])
+    cov['checker_cases'] = len(chk)
+    return cov
